@@ -51,6 +51,10 @@ func (f *FileStream) ReadAll() ([]rune, error) {
 		}
 		result = append(result, res...)
 	}
+	// an incomplete sequence is left at the end of file
+	if len(f.encBuffer) > 0 {
+		return []rune{}, zerr.ReadFileError(errInvalidUTF8, f.path)
+	}
 
 	return result, nil
 }
